@@ -60,6 +60,13 @@ const resultPrefix = "VERIF-RESULT "
 // deadlock of the client under test ends one scenario only, and its goroutine
 // dump becomes the witness.
 func Main(r *evid.Run, n int, perChildTimeout time.Duration, minDistinct int, f ScenarioFunc) {
+	RunScenarios(r, n, perChildTimeout, f)
+	r.Finish(minDistinct)
+}
+
+// RunScenarios is Main without the final Finish, for programs that combine
+// several parts. In a child process it runs the scenario and exits.
+func RunScenarios(r *evid.Run, n int, perChildTimeout time.Duration, f ScenarioFunc) {
 	if ks := os.Getenv("VERIF_CHILD_SCENARIO"); ks != "" {
 		var k int
 		fmt.Sscan(ks, &k)
@@ -97,7 +104,6 @@ func Main(r *evid.Run, n int, perChildTimeout time.Duration, minDistinct int, f 
 	}
 	close(jobs)
 	wg.Wait()
-	r.Finish(minDistinct)
 }
 
 func runChild(r *evid.Run, k int, timeout time.Duration) {
